@@ -1,6 +1,8 @@
-\* U1 of C08: MaxNodes = 3 operation nodes, all kinds of FATypes!OpKinds, leaf types FATypes!LeafTypes
+\* U1 of C08 (quick): DAGs of at most 2 operation nodes, all 52 kinds of FATypes!OpKinds,
+\* leaf types FATypes!LeafTypes (5 symbol dtypes + integer / unsized float / unsized complex / boolean)
 SPECIFICATION Spec
 CONSTANTS
-  MaxNodes = 3
+  MaxNodes = 2
+  AllKinds = TRUE
 INVARIANTS Closed Listed CleanMatch
 CHECK_DEADLOCK FALSE
